@@ -33,7 +33,7 @@ from commonroad.common.file_writer import CommonRoadFileWriter, OverwriteExistin
 from commonroad.common.util import FileFormat
 from commonroad.scenario.lanelet import Lanelet
 from commonroad.scenario.obstacle import DynamicObstacle, ObstacleType, StaticObstacle
-from commonroad.scenario.scenario import Tag
+from commonroad.scenario.scenario import ScenarioID, Tag
 from commonroad.scenario.state import InitialState
 from commonroad.geometry.shape import Rectangle
 
@@ -154,6 +154,30 @@ def writer_kwargs(variant):
             "tags": {Tag.SIMULATED}}
 
 
+N_EDITS = 5
+
+
+def apply_edit(world, si, k):
+    """an edit of scenario si through its public attributes, made between two writes (the scenario is an input of the
+    writer: what is written afterwards is what a fresh writer writes for the scenario as it is now)"""
+    sc = world[si][0]
+    sid = sc.scenario_id
+    if k == 0:
+        sid.map_id = sid.map_id + 1
+    elif k == 1:
+        sid.map_name = sid.map_name + "B"
+    elif k == 2:
+        sc.scenario_id = ScenarioID(sid.cooperative, sid.country_id, sid.map_name, sid.map_id + 2, sid.configuration_id,
+                                    sid.obstacle_behavior, sid.prediction_id, sid.scenario_version)
+    elif k == 3:
+        if sid.configuration_id is not None:
+            sid.configuration_id = sid.configuration_id + 1
+        else:
+            sid.map_id = sid.map_id + 3
+    else:
+        sc.translate_rotate(np.array([1.0, -2.0]), 0.0)
+
+
 def new_writer(world, fmt, prec, si, variant):
     sc, pps = world[si]
     return CommonRoadFileWriter(sc, pps, decimal_precision=prec,
@@ -244,11 +268,13 @@ class Pristine:
     def _serve(world, req_r, ans_w):
         with os.fdopen(req_r, "r") as f:
             for line in f:
-                fmt, prec, si, variant, with_pps, sub = json.loads(line)
+                fmt, prec, si, variant, with_pps, sub, edits = json.loads(line)
                 pid = os.fork()
                 if pid == 0:
                     code = 0
                     try:
+                        for k in edits:      # in this process nothing was written (or printed) before the edit
+                            apply_edit(world, si, k)
                         w = new_writer(world, fmt, prec, si, variant)
                         call_write(w, "write" if with_pps else "write_scenario", os.path.join(sub, "out"), "always")
                     except BaseException as e:  # noqa  (a writer that fails is an observation, judged by the caller)
@@ -260,12 +286,12 @@ class Pristine:
                 os.waitpid(pid, 0)
                 os.write(ans_w, b".")
 
-    def render(self, fmt, prec, si, variant, with_pps):
+    def render(self, fmt, prec, si, variant, with_pps, edits=()):
         """('ok', normalised bytes) | ('exc', name) | ('files', [names]) (no file or several files written)"""
         sub = os.path.join(self.d, f"ref{self.n}")
         self.n += 1
         os.makedirs(sub)
-        os.write(self.req_w, (json.dumps([fmt, prec, si, variant, with_pps, sub]) + "\n").encode())
+        os.write(self.req_w, (json.dumps([fmt, prec, si, variant, with_pps, sub, list(edits)]) + "\n").encode())
         if os.read(self.ans_r, 1) != b".":
             raise RuntimeError("C15: the reference helper process died")
         try:
@@ -381,6 +407,7 @@ def _run_history(case, world, pristine, d):
         if v is not None:
             by_bytes.setdefault(v, []).append(k)
     writers, conf, wrote_before, news_since = {}, {}, {}, {}
+    edits = {}
     steps, viol = [], []
     readback_done = set()
 
@@ -406,6 +433,14 @@ def _run_history(case, world, pristine, d):
                 news_since[k].append((fmt, prec))
             news_since[w] = []
             steps.append({"obs": "new"})
+            continue
+        if op[0] == "edit":
+            _, si_e, k_e = op
+            apply_edit(world, si_e, k_e)
+            edits[si_e] = edits.get(si_e, ()) + (k_e,)
+            expect_ids[si_e] = ids_of(*world[si_e])
+            expect_coords[si_e] = coords_of(*world[si_e])
+            steps.append({"obs": "other"})
             continue
         kind, w, pi, mode = op
         if w not in writers:
@@ -470,6 +505,14 @@ def _run_history(case, world, pristine, d):
             continue
         got = try_normalise(fmt, after[target])
         want = refs[(fmt, si, prec, variant, with_pps)]
+        if edits.get(si):
+            # the scenario was edited since the case began: the reference is a fresh writer, in a process where nothing
+            # was written before, for the scenario with the same edits
+            rk = (fmt, si, prec, variant, with_pps, edits[si])
+            if rk not in refs:
+                r = pristine.render(fmt, prec, si, variant, with_pps, edits[si])
+                refs[rk] = r[1] if r[0] == "ok" else None
+            want = refs[rk]
         toks = by_bytes.get(got, [])
         steps.append({"obs": "written" if not others and target in INDEX_OF else "other",
                       "path": INDEX_OF.get(target, 0), "toks": toks})
@@ -482,14 +525,20 @@ def _run_history(case, world, pristine, d):
                 other_prec = [p for f2, p in news_since[w] if p != prec]
                 other_prec = other_prec if _matches_other_precision(pristine, fmt, si, variant, with_pps, got,
                                                                     other_prec) else []
-            if other_prec:
+            if other_prec and not edits.get(si):
                 bad(f"{fmt}:{kind}:precision-of-another-writer",
                     f"{desc}: content is rendered with the precision of a writer constructed later "
                     f"({other_prec[0] if not isinstance(other_prec[0], tuple) else other_prec[0][2]}), not {prec}")
-            elif wrote_before[w] > 0 and fmt == "xml" and got.count(b"<lanelet ") > want.count(b"<lanelet "):
+            elif wrote_before[w] > 0 and fmt == "xml" and got.count(b"<lanelet ") > want.count(b"<lanelet ") \
+                    and not edits.get(si):
                 bad(f"{fmt}:{kind}:tree-accumulates",
                     f"{desc}: write no. {wrote_before[w] + 1} of this writer holds {got.count(b'<lanelet ')} lanelet "
                     f"elements, a fresh identical writer emits {want.count(b'<lanelet ')}")
+            elif edits.get(si):
+                bad(f"{fmt}:{kind}:content-differs:after-edit",
+                    f"{desc}: after the scenario was edited (edits {list(edits[si])} of apply_edit) the content differs "
+                    f"from what a fresh identical writer emits for the same edited scenario in a process where nothing "
+                    f"was written before ({len(got)} vs {len(want)} bytes{_first_difference(fmt, got, want)})")
             else:
                 bad(f"{fmt}:{kind}:content-differs:{'rewrite' if wrote_before[w] else 'first-write'}",
                     f"{desc}: content differs from what a fresh identical writer emits in a process where no other "
@@ -712,6 +761,26 @@ def with_failed_write(rng, ops):
     return ops[:i + 1] + [fail] + tail
 
 
+def with_edit(rng, ops):
+    """the same history with the scenario of one writer edited after one of its writes, followed by a write of that
+    writer and one of a newly constructed identical writer"""
+    conf, idx = {}, []
+    for i, op in enumerate(ops):
+        if op[0] == "new":
+            conf[op[1]] = op
+        elif op[0] in ("write", "write_scenario") and op[1] in conf:
+            idx.append((i, dict(conf)))
+    if not idx:
+        return None
+    i, cf = rng.choice(idx)
+    _, w, pi, _ = ops[i]
+    _, _, fmt, prec, si, variant = cf[w]
+    w2 = max(op[1] for op in ops if op[0] == "new") + 1
+    tail = [["edit", si, rng.randrange(N_EDITS)], [rng.choice(["write", "write_scenario"]), w, (pi + 1) % 3, "always"],
+            ["new", w2, fmt, prec, si, variant], [rng.choice(["write", "write_scenario"]), w2, (pi + 2) % 3, "always"]]
+    return ops[:i + 1] + tail
+
+
 def gen(rng, n):
     cases = []
     for i in range(n):
@@ -721,19 +790,25 @@ def gen(rng, n):
             ops2 = with_failed_write(rng, ops)
             if ops2 is not None:
                 c = {"op": "history", "scen_seed": c["scen_seed"], "ops": ops2, "failed_write": True}
+        elif i % 7 == 5:
+            ops2 = with_edit(rng, ops)
+            if ops2 is not None:
+                c = {"op": "history", "scen_seed": c["scen_seed"], "ops": ops2, "edited": True}
         cases.append(c)
     return cases
 
 
 def nontrivial(c):
-    return any(op[0] != "new" for op in c["ops"])
+    return any(op[0] not in ("new", "edit") for op in c["ops"])
 
 
 def kind(c):
     fm = sorted({op[2] for op in c["ops"] if op[0] == "new"})
-    names = {op[2] // 3 for op in c["ops"] if op[0] != "new"}
+    names = {op[2] // 3 for op in c["ops"] if op[0] not in ("new", "edit")}
     if c.get("failed_write"):
         return "+".join(fm) + ":with a failed write"
+    if c.get("edited"):
+        return "+".join(fm) + ":scenario edited between writes"
     return ("+".join(fm) + f":writers={len({op[1] for op in c['ops'] if op[0] == 'new'})}"
             + f":names={'plain' if names <= {0} else 'suffixed' if 0 not in names else 'mixed'}")
 
@@ -843,7 +918,7 @@ def run(ctx):
             ctx.count(c, nontrivial(c), kind(c))
             for sig, what in r["violations"]:
                 ctx.fail(sig, what, c)
-            if with_corr and not c.get("failed_write"):     # the model has no failing writes: oracle only
+            if with_corr and not c.get("failed_write") and not c.get("edited"):   # not in the model: oracle only
                 terms.append(coq_case(c, r))
                 owner.append(c)
 
